@@ -80,8 +80,11 @@ def slAccept : List Kind → List Kind → Bool
 def Abs2.accepts (b s : Abs2) : Bool := b.fn == s.fn && ksAccept b.ks s.ks && slAccept b.sl s.sl
 
 /-- the slot kinds that survive a resumption of the frame -/
-def resume (C : Cert) (idF : Int) (sl : List Kind) : List Kind :=
-  (List.range sl.length).map fun (i : Nat) => if C.stabOf (idF, (i : Int)) == kget sl i then kget sl i else .any
+def resumeFrom (C : Cert) (idF : Int) : Nat → List Kind → List Kind
+  | _, [] => []
+  | i, k :: ks => (if C.stabOf (idF, (i : Int)) == k then k else .any) :: resumeFrom C idF (i + 1) ks
+
+def resume (C : Cert) (idF : Int) (sl : List Kind) : List Kind := resumeFrom C idF 0 sl
 
 /-- a closure created by the current frame is not kept in a slot as a closure -/
 def storeKind : Kind → Kind
